@@ -182,7 +182,10 @@ def item_script(wd, it):
     L.append("w_close 0")
     if ps >= 0:
         L.append("pool_destroy 0")
-    L.append("r_init 0 %s %d %d" % (path, it.get("verify", 1), it.get("madv", 0)))
+    if (len(it["name"]) + len(it["adds"])) % 9 == 4:        # NULL reader options (defaults) for some of the read-backs
+        L.append("r_init 0 %s nullopt 0" % path)
+    else:
+        L.append("r_init 0 %s %d %d" % (path, it.get("verify", 1), it.get("madv", 0)))
     L += ["r_meta 0", "it_iter 1 r:0", "it_drain 1", "it_destroy 1"]
     # a few seeks as well (the seek path computes block positions on its own): first, middle and last key offered, forwards and back
     ks = [k for k, v in it["adds"]]
